@@ -378,7 +378,7 @@ class ReplaceMatch(ast.NodeTransformer):
             body = [self.visit(stmt) for stmt in c.body]
 
             # Handle default: match _
-            if isinstance(c.pattern, ast.MatchAs) and c.pattern.name is None:
+            if isinstance(c.pattern, ast.MatchAs) and c.pattern.name is None and c.guard is None:
                 default_body = body
                 continue
 
